@@ -116,7 +116,7 @@ Definition swap_remove (i : nat) (l : list Z) : list Z :=
 
 Definition ab_remove_at (i : nat) (a : ab) : ab := (remove_back (fst a), swap_remove i (snd a)).
 Definition ab_clear (a : ab) : ab := (remove_all (fst a), []).
-Definition ab_copy (M : Z) (a : ab) : ab := (copy_repr M (Z.of_nat (length (snd a))), snd a).
+Definition ab_copy (M : Z) (a : ab) : ab := (copy_repr M (rcount (fst a)), snd a).   (* count = bucket.GetBounds().GetCount() *)
 
 (* ---------------------------------------------------------------- invariant *)
 Definition repr_inv (M : Z) (r : repr) : Prop :=
@@ -371,9 +371,10 @@ Qed.
 Lemma ab_clear_inv a : ab_inv M a -> ab_inv M (ab_clear a).
 Proof. intros [H C]. destruct (remove_all_inv _ H) as [H' C']. split; simpl; auto. Qed.
 
-Lemma ab_copy_inv a : ab_inv M (ab_copy M a).
+Lemma ab_copy_inv a : ab_inv M a -> ab_inv M (ab_copy M a).
 Proof.
-  destruct (copy_repr_inv (Z.of_nat (length (snd a))) ltac:(lia)) as [H C]. split; simpl; auto.
+  intros [HI HC].
+  destruct (copy_repr_inv (rcount (fst a)) ltac:(lia)) as [H C]. split; simpl; auto. lia.
 Qed.
 
 (* count <= capacity of the current representation, fast count <= maxFastCount *)
@@ -462,4 +463,111 @@ Proof.
   - repeat split; try lia; try discriminate. intros _. destruct (snd a); [reflexivity|simpl in C; lia].
   - repeat split; try lia; try discriminate.
   - repeat split; try lia; try discriminate.
+Qed.
+
+(* ================================================================ copy constructor and move (lines 184-226) *)
+(* on (source, destination): the copy constructor reads the source through GetBounds() only and builds a fresh
+   representation; the move constructor is Swap with a null bucket *)
+Definition ab_copy_from (M : Z) (src : ab) : ab * ab := (src, ab_copy M src).
+Definition ab_move_from (src : ab) : ab * ab := (ab_null, src).
+
+(* the representation of a copy is TIGHT: the state byte is recomputed from (memPoolIndex, count) with
+   memPoolIndex = count (never copied from the source, whose pool may have spare room), a heap copy has
+   capacity = count; the content is equal and the source is untouched *)
+Theorem ab_copy_tight M src : 0 < M < 16 -> ab_inv M src ->
+  let sd := ab_copy_from M src in
+  let n := Z.of_nat (length (snd src)) in
+  fst sd = src /\ snd (snd sd) = snd src /\ ab_inv M (snd sd) /\
+  match fst (snd sd) with
+  | RNull => n = 0
+  | RFast st => 1 <= n <= M /\ st = make_state n n /\ st = 16 * n + n /\ pool_of st = n /\ fcount_of st = n
+  | RHeap cap cnt => M < n /\ cap = n /\ cnt = n
+  | RStuck => False
+  end.
+Proof.
+  intros HM [HI HC] sd n. unfold sd, ab_copy_from, ab_copy. simpl.
+  split; [reflexivity|]. split; [reflexivity|]. split; [apply ab_copy_inv; auto; split; auto|].
+  fold n in HC. rewrite HC. unfold copy_repr.
+  destruct (Z.eqb_spec n 0); [assumption|]. assert (0 <= n) by (unfold n; lia).
+  destruct (Z.leb_spec n M).
+  - destruct (fast_state_facts n n ltac:(lia) ltac:(lia)) as (A & B & C).
+    split; [lia|]. split; [reflexivity|]. split; [apply make_state_spec; lia|]. auto.
+  - lia.
+Qed.
+
+Theorem ab_move_spec M src : ab_inv M src ->
+  fst (ab_move_from src) = ab_null /\ snd (ab_move_from src) = src /\ ab_inv M (fst (ab_move_from src)).
+Proof. intros H. simpl. repeat split; auto. Qed.
+
+(* ================================================================ allocation failures *)
+(* fs = failure schedule: one boolean per allocation point reached, in program order (true = that allocation throws
+   std::bad_alloc).  A pool allocation that is served from a cached block simply has `false`. *)
+Definition take (fs : list bool) : bool * list bool :=
+  match fs with [] => (false, []) | b :: r => (b, r) end.
+
+(* AddBackCrt with failures: result representation, "threw", remaining schedule.  Every allocation happens before
+   any mutation (FastMemory / ArrayMemory guards give the block back), so a throw leaves the bucket as it was. *)
+Definition add_back_f (M : Z) (r : repr) (fs : list bool) : repr * bool * list bool :=
+  match r with
+  | RNull =>
+      let (f, fs1) := take fs in                                  (* FastMemory memory(pool 1) *)
+      if f then (r, true, fs1) else (add_back M r, false, fs1)
+  | RFast st =>
+      if fcount_of st =? pool_of st then
+        if fcount_of st + 1 <=? M then
+          let (f, fs1) := take fs in                              (* FastMemory memory(next pool) *)
+          if f then (r, true, fs1) else (add_back M r, false, fs1)
+        else
+          let (f1, fs1) := take fs in                             (* ArrayMemory memory(arrayMemPool) *)
+          if f1 then (r, true, fs1) else
+          let (f2, fs2) := take fs1 in                            (* Array::CreateCap(2*maxFastCount) *)
+          if f2 then (r, true, fs2) else (add_back M r, false, fs2)
+      else (add_back M r, false, fs)                              (* room in the block: no allocation *)
+  | RHeap cap cnt =>
+      if cnt <? cap then (add_back M r, false, fs)
+      else let (f, fs1) := take fs in                             (* Array::pvAddBackGrow: mData.Reset allocates first *)
+           if f then (r, true, fs1) else (add_back M r, false, fs1)
+  | RStuck => (RStuck, false, fs)
+  end.
+
+(* RemoveBack with failures: only Shrink allocates; its failure is swallowed (catch (...) {}), lines 337-347 *)
+Definition remove_back_f (r : repr) (fs : list bool) : repr * list bool :=
+  match r with
+  | RHeap cap cnt =>
+      if (2 <=? cnt) && (2 <? cnt) && (cnt <=? cap / 4) && negb (cap <=? cnt * 2) then
+        let (f, fs1) := take fs in
+        if f then (RHeap cap (cnt - 1), fs1) else (remove_back r, fs1)
+      else (remove_back r, fs)
+  | _ => (remove_back r, fs)
+  end.
+
+Theorem add_back_f_spec M r fs :
+  let '(r', threw, _) := add_back_f M r fs in
+  (threw = true -> r' = r) /\ (threw = false -> r' = add_back M r).
+Proof.
+  destruct r as [|st|cap cnt|]; unfold add_back_f.
+  - destruct (take fs) as [f fs1]. destruct f; cbn; split; congruence.
+  - destruct (fcount_of st =? pool_of st); [|cbn; split; congruence].
+    destruct (fcount_of st + 1 <=? M).
+    + destruct (take fs) as [f fs1]. destruct f; cbn; split; congruence.
+    + destruct (take fs) as [f1 fs1]. destruct f1; [cbn; split; congruence|].
+      destruct (take fs1) as [f2 fs2]. destruct f2; cbn; split; congruence.
+  - destruct (cnt <? cap); [cbn; split; congruence|]. destruct (take fs) as [f fs1]. destruct f; cbn; split; congruence.
+  - cbn; split; congruence.
+Qed.
+
+(* a swallowed Shrink failure changes nothing but the capacity kept: same count, still a legal representation *)
+Theorem remove_back_f_spec M r fs : repr_inv M r -> 1 <= rcount r ->
+  let r' := fst (remove_back_f r fs) in
+  repr_inv M r' /\ rcount r' = rcount r - 1 /\
+  (r' = remove_back r \/ exists cap cnt, r = RHeap cap cnt /\ 2 < cnt /\ r' = RHeap cap (cnt - 1)).
+Proof.
+  intros HI HC. destruct (remove_back_inv M r HI HC) as [I' C'].
+  destruct r as [|st|cap cnt|]; simpl; try (split; [exact I'|split; [exact C'|left; reflexivity]]).
+  destruct ((2 <=? cnt) && (2 <? cnt) && (cnt <=? cap / 4) && negb (cap <=? cnt * 2)) eqn:B;
+    [|simpl; split; [exact I'|split; [exact C'|left; reflexivity]]].
+  destruct (take fs) as [f fs1]. destruct f; simpl; [|split; [exact I'|split; [exact C'|left; reflexivity]]].
+  apply andb_true_iff in B. destruct B as [B _]. apply andb_true_iff in B. destruct B as [B _].
+  apply andb_true_iff in B. destruct B as [_ B2]. apply Z.ltb_lt in B2.
+  simpl in HI, HC. split; [lia|]. split; [lia|]. right. exists cap, cnt. auto.
 Qed.
